@@ -249,6 +249,11 @@ pub struct ProxyConn {
     pub early_bytes: Vec<u8>,
     pub tunnelled_bytes: usize,
     pub authority: String,
+    /// simulated time at which the last byte of the reply script's first send block is delivered
+    pub t_reply_done: u64,
+    /// simulated time at which the first byte after the CONNECT head arrived
+    pub t_first_after_head: Option<u64>,
+    pub first_after_head: Option<u8>,
 }
 
 pub type InnerFactory = Box<dyn FnMut(&str, usize) -> Option<Box<dyn Peer>> + Send>;
@@ -265,7 +270,7 @@ pub struct ConnectProxy {
     log: Arc<Mutex<ProxyLog>>,
     idx: usize,
     /// delay before the reply starts
-    reply_delay: u64,
+    pub reply_delay: u64,
 }
 
 impl ConnectProxy {
@@ -282,6 +287,14 @@ impl ConnectProxy {
 impl Peer for ConnectProxy {
     fn on_bytes(&mut self, c: &mut dyn Ctl, data: &[u8]) {
         if self.head_done {
+            {
+                let mut l = self.log.lock().unwrap();
+                let e = &mut l.conns[self.idx];
+                if e.t_first_after_head.is_none() && !data.is_empty() {
+                    e.t_first_after_head = Some(c.now());
+                    e.first_after_head = data.first().copied();
+                }
+            }
             match &mut self.inner {
                 Some(p) => {
                     self.log.lock().unwrap().conns[self.idx].tunnelled_bytes += data.len();
@@ -303,6 +316,21 @@ impl Peer for ConnectProxy {
                 l.conns[self.idx].head = head;
                 l.conns[self.idx].authority = authority.clone();
                 l.conns[self.idx].early_bytes.extend_from_slice(&rest);
+                if !rest.is_empty() {
+                    l.conns[self.idx].t_first_after_head = Some(c.now());
+                    l.conns[self.idx].first_after_head = rest.first().copied();
+                }
+                // when is the reply (all of its scheduled sends) delivered?
+                let mut t = c.now() + self.reply_delay;
+                let mut last_send = t;
+                for a in &self.reply.acts {
+                    match a {
+                        crate::peers::Act::Wait(n) => t += *n,
+                        crate::peers::Act::Send(_) => last_send = t,
+                        _ => {}
+                    }
+                }
+                l.conns[self.idx].t_reply_done = last_send;
             }
             self.reply.play(c, self.reply_delay);
             if self.tunnel {
@@ -359,4 +387,49 @@ pub fn sni_of_client_hello(b: &[u8]) -> Option<String> {
         p += len;
     }
     None
+}
+
+/// A proxy listener that serves both plain forward-proxy requests (absolute-form) and CONNECT
+/// tunnels: decides on the first request line.
+pub struct DualProxy {
+    buf: Vec<u8>,
+    chosen: Option<Box<dyn Peer>>,
+    make_forward: Box<dyn FnMut(usize) -> Box<dyn Peer> + Send>,
+    make_connect: Box<dyn FnMut(usize) -> Box<dyn Peer> + Send>,
+}
+
+impl DualProxy {
+    pub fn new(make_forward: Box<dyn FnMut(usize) -> Box<dyn Peer> + Send>, make_connect: Box<dyn FnMut(usize) -> Box<dyn Peer> + Send>) -> DualProxy {
+        DualProxy { buf: Vec::new(), chosen: None, make_forward, make_connect }
+    }
+}
+
+impl Peer for DualProxy {
+    fn on_bytes(&mut self, c: &mut dyn Ctl, data: &[u8]) {
+        if let Some(p) = &mut self.chosen {
+            p.on_bytes(c, data);
+            return;
+        }
+        self.buf.extend_from_slice(data);
+        if self.buf.len() >= 8 || self.buf.contains(&b' ') {
+            let mut p = if self.buf.starts_with(b"CONNECT ") { (self.make_connect)(c.conn()) } else { (self.make_forward)(c.conn()) };
+            p.on_accept(c);
+            let b = std::mem::take(&mut self.buf);
+            p.on_bytes(c, &b);
+            self.chosen = Some(p);
+        }
+    }
+    fn on_client_eof(&mut self, c: &mut dyn Ctl) {
+        if let Some(p) = &mut self.chosen {
+            p.on_client_eof(c);
+        }
+    }
+    fn on_timer(&mut self, c: &mut dyn Ctl, token: u64) {
+        if let Some(p) = &mut self.chosen {
+            p.on_timer(c, token);
+        }
+    }
+    fn as_any(&mut self) -> &mut dyn Any {
+        self
+    }
 }
